@@ -218,6 +218,14 @@ func (r *Run) hist2(h, k string) {
 	r.hist[h][k]++
 }
 
+// List returns the violations recorded so far (used by worker processes that
+// hand their findings to the parent).
+func (r *Run) List() []Violation {
+	r.mu.Lock()
+	defer r.mu.Unlock()
+	return append([]Violation{}, r.violations...)
+}
+
 // Violations returns the number of (unlisted) violations so far.
 func (r *Run) Violations() int {
 	r.mu.Lock()
